@@ -6,12 +6,12 @@ from .ordq import calls, dominates, result_edges, switch_of_local
 from .rule import ok, bad, undecided
 from .rules_ord import _children, S
 
-DESYNC = 'desync::desync::Desync'
-DATAREF = 'desync::desync::DataRef'
-UNSAFE_JOB = 'desync::scheduler::unsafe_job::UnsafeJob'
-ENTRY_POINTS = ('desync::scheduler::desync_scheduler::desync', 'desync::scheduler::desync_scheduler::sync', 'desync::scheduler::desync_scheduler::try_sync',
+DESYNC = 'desync::Desync'
+DATAREF = 'desync::DataRef'
+UNSAFE_JOB = 'desync::UnsafeJob'
+ENTRY_POINTS = ('desync::desync', 'desync::sync', 'desync::try_sync',
                 S + 'future_desync', S + 'future_sync', S + 'sync_no_panic', S + 'sync', S + 'desync', S + 'try_sync',
-                'desync::scheduler::desync_scheduler::future_desync', 'desync::scheduler::desync_scheduler::future_sync')
+                'desync::future_desync', 'desync::future_sync')
 
 
 def raw_derefs(fn):
@@ -70,10 +70,10 @@ def ua_sites(ctx):
     expected = {
         'deref payload pointer *mut T': (5, 'UA-confine'),
         'call alloc::boxed::Box::from_raw': (2, 'UA-free'),
-        'call desync::scheduler::unsafe_job::UnsafeJob::new': (1, 'UA-wait'),
-        'call desync::scheduler::unsafe_job::UnsafeJob::new_with_notification': (1, 'UA-wait'),
+        'call desync::UnsafeJob::new': (1, 'UA-wait'),
+        'call desync::UnsafeJob::new_with_notification': (1, 'UA-wait'),
         'call core::intrinsics::transmute': (2, 'UA-wait (lifetime erasure inside UnsafeJob::new*)'),
-        'deref *mut dyn(desync::scheduler::job::ScheduledJob)': (1, 'UA-wait (only in UnsafeJob::run)'),
+        'deref *mut dyn(desync::ScheduledJob)': (1, 'UA-wait (only in UnsafeJob::run)'),
         'unsafe impl Send for Desync': (1, 'UA-bounds'),
         'unsafe impl Sync for Desync': (1, 'UA-bounds'),
         'unsafe impl Send for DataRef': (1, 'UA-bounds'),
@@ -256,7 +256,7 @@ def ua_wait(ctx):
         for (bb, idx, pty, txt) in raw_derefs(fn):
             if 'ScheduledJob' in pty:
                 derefs[fn.name] += 1
-    runfn = '<%s as desync::scheduler::job::ScheduledJob>::run' % UNSAFE_JOB
+    runfn = '%s::run' % UNSAFE_JOB
     other = [f for f in derefs if f != runfn]
     if other:
         out.append(bad(R, 'UnsafeJob|deref-only-in-run', 'the erased job pointer is dereferenced in %s' % short(other[0]), fn=other[0]))
@@ -321,8 +321,8 @@ def ua_bounds(ctx):
         S + 'sync': [('TFn', SEND, None), ('Result', SEND, None)],
         S + 'try_sync': [('TFn', SEND, None), ('FnResult', SEND, None)],
         S + 'future_sync': [('TFn', SEND, None), ('TFuture', SEND, None)],
-        'desync::pipe::pipe_in': [('ProcessFn', SEND, None), ('ProcessFn', None, "'static"), ('S', SEND, None), ('S', None, "'static"), ('Core', SEND, None)],
-        'desync::pipe::pipe': [('ProcessFn', SEND, None), ('ProcessFn', None, "'static"), ('S', SEND, None), ('S', None, "'static"), ('Output', SEND, None), ('Core', SEND, None)],
+        'desync::pipe_in': [('ProcessFn', SEND, None), ('ProcessFn', None, "'static"), ('S', SEND, None), ('S', None, "'static"), ('Core', SEND, None)],
+        'desync::pipe': [('ProcessFn', SEND, None), ('ProcessFn', None, "'static"), ('S', SEND, None), ('S', None, "'static"), ('Output', SEND, None), ('Core', SEND, None)],
     }
     for name, reqs in sigs.items():
         fn = F.fn(name)
@@ -343,7 +343,7 @@ def ua_bounds(ctx):
             out.append(bad(R, key, 'bound(s) relaxed: %s — values of these types cross to pool threads / outlive the call through lifetime-erased pointers' % ', '.join(missing), fn=name))
         else:
             out.append(ok(R, key, 'bounds present: ' + ', '.join("%s: %s" % (p, 'Send' if tr else "'static") for p, tr, ol in reqs), fn=name))
-    tr = [t for t in F.traits if t['path'] == 'desync::scheduler::job::ScheduledJob']
+    tr = [t for t in F.traits if t['path'] == 'desync::ScheduledJob']
     if tr and any(p.get('trait') == SEND for p in tr[0]['supers']):
         out.append(ok(R, 'ScheduledJob: Send', 'jobs must be Send'))
     else:
